@@ -63,7 +63,7 @@ def composition(rng, n):
 
 
 def generate(rng, tier):
-    n = 260 if tier == "quick" else 4000
+    n = 400 if tier == "quick" else 4000
     cases = []
     k = 0
     for i in range(n):
